@@ -216,6 +216,7 @@ def after_merge(s, i):
 
 
 def run(s):
+    K.hostile_callers(s)
     q = s.tier == 'quick'
     for i in range(360 if q else 30000):
         if s.mine(i):
